@@ -64,6 +64,20 @@ pub fn sfs_delayed(ctx: &Ctx, args: &[&str], stdin: &[u8], first: usize) -> Run 
     std::thread::spawn(move || {
         let _ = si.write_all(&bytes[..first]);
         let _ = si.flush();
+        // the rest only leaves once the reader has TAKEN the first piece (see feed_fifo)
+        {
+            use std::os::unix::io::AsRawFd;
+            let fd = si.as_raw_fd();
+            let t0 = std::time::Instant::now();
+            loop {
+                let mut pending: libc::c_int = 0;
+                let rc = unsafe { libc::ioctl(fd, libc::FIONREAD, &mut pending) };
+                if rc != 0 || pending == 0 || t0.elapsed().as_millis() > 2000 {
+                    break;
+                }
+                std::thread::sleep(std::time::Duration::from_millis(1));
+            }
+        }
         std::thread::sleep(std::time::Duration::from_millis(40));
         let _ = si.write_all(&bytes[first..]);
     });
@@ -98,6 +112,21 @@ fn feed_fifo(fifo: &str, parts: Vec<Vec<u8>>, pause_ms: u64) -> std::thread::Joi
         let Ok(mut w) = std::fs::OpenOptions::new().write(true).open(&path) else { return };
         for (i, part) in parts.iter().enumerate() {
             if i > 0 && !part.is_empty() {
+                // the next part only leaves once the reader has TAKEN the previous one (the pipe is empty again), so that the
+                // reader really sees two separate bursts - a short read followed by more data - however loaded the machine is
+                {
+                    use std::os::unix::io::AsRawFd;
+                    let fd = w.as_raw_fd();
+                    let t0 = std::time::Instant::now();
+                    loop {
+                        let mut pending: libc::c_int = 0;
+                        let rc = unsafe { libc::ioctl(fd, libc::FIONREAD, &mut pending) };
+                        if rc != 0 || pending == 0 || t0.elapsed().as_millis() > 2000 {
+                            break;
+                        }
+                        std::thread::sleep(std::time::Duration::from_millis(1));
+                    }
+                }
                 std::thread::sleep(std::time::Duration::from_millis(pause_ms));
             }
             if w.write_all(part).is_err() {
@@ -357,7 +386,10 @@ pub fn sfs_side_fifo(ctx: &Ctx, args: &[&str], fifo: &str, content: &[u8], stdin
     if !Command::new("mkfifo").arg(fifo).status().map(|s| s.success()).unwrap_or(false) {
         return None;
     }
-    let feeder = feed_fifo(fifo, vec![content.to_vec()], 0);
+    // the secondary input arrives in two bursts when it has more than one line (first line, a pause, the rest)
+    let cut = content.iter().position(|b| *b == b'\n').map(|p| p + 1).filter(|p| *p < content.len());
+    let parts = match cut { Some(c) => vec![content[..c].to_vec(), content[c..].to_vec()], None => vec![content.to_vec()] };
+    let feeder = feed_fifo(fifo, parts, 20);
     let mut cmd = Command::new(&ctx.sfs_bin);
     cmd.args(args).env("SFS_ALLOW_STDIN", "1").env_remove("RUST_BACKTRACE").env_remove("RUST_LOG")
         .stdout(Stdio::piped()).stderr(Stdio::piped()).stdin(if stdin.is_some() { Stdio::piped() } else { Stdio::null() });
